@@ -4,6 +4,7 @@
 import TinyHttpModel.WireSpec
 import TinyHttpModel.Lemmas.BodyRead
 import TinyHttpModel.Lemmas.PipelineBodies
+import TinyHttpModel.Lemmas.PipelineChunked
 
 namespace TH.Props.C09
 open TH
@@ -131,5 +132,202 @@ theorem pipeline_with_bodies (msgs : List Msg) (script : Script)
   · intro i d m h1 h2
     rw [St.finish_delivered, hdel'] at h1
     exact hpre i d (m.head, m.ows, m.body) h1 (by rw [List.getElem?_map, h2]; rfl)
+
+/-! ### end to end: a pipeline of requests whose bodies are Content-Length delimited or chunked -/
+
+/-- a request body as the client sends it: `plain` — the bytes themselves, delimited by
+    Content-Length; `chunked` — a list of chunks and the size field of the terminal chunk;
+    `absent` — no body and no framing header at all (a bare `GET`) -/
+inductive SentBody where
+  | plain (body : Bytes)
+  | chunked (cs : List Spec.SentChunk) (zero : Bytes)
+  | absent
+
+/-- the body's bytes on the wire -/
+def SentBody.wire : SentBody → Bytes
+  | .plain body => body
+  | .chunked cs zero => Spec.renderChunked cs zero
+  | .absent => []
+
+/-- the body's content: what a handler reading it to the end must obtain -/
+def SentBody.payload : SentBody → Bytes
+  | .plain body => body
+  | .chunked cs _ => Spec.chunkPayload cs
+  | .absent => []
+
+/-- the body length the delivered request reports: the Content-Length, none for a chunked body -/
+def SentBody.declared : SentBody → Option Nat
+  | .plain body => some body.length
+  | .chunked _ _ => none
+  | .absent => none
+
+/-- a request head, the optional whitespace it is rendered with, and its body (either form) -/
+structure CMsg where
+  head : Head
+  ows : List (Bytes × Bytes)
+  body : SentBody
+
+def cmsgBytes (m : CMsg) : Bytes := Spec.renderHead m.head m.ows ++ m.body.wire
+
+/-- generalises `plainBodied`: a well-formed request on a connection that stays open, no Expect,
+    whose body is either delimited by a Content-Length equal to the number of body bytes on the
+    wire (buffered at parse time or streamed; `Content-Length: 0` with no bytes is allowed too), or
+    sent with the chunked transfer coding as a list of well-formed chunks followed by a well-formed
+    terminal chunk, or absent (no Content-Length, no Transfer-Encoding). -/
+def wellBodied (m : CMsg) : Prop :=
+  Spec.wfHead m.head = true ∧ (∀ o ∈ m.ows, Spec.isOwsList o.1 = true ∧ Spec.isOwsList o.2 = true) ∧
+  (match m.body with
+   | .plain body =>
+     framingOf m.head.headers = .ok ⟨.buffered body.length, some body.length, false⟩ ∨
+     framingOf m.head.headers = .ok ⟨.limited body.length, some body.length, false⟩ ∨
+     (body = [] ∧ framingOf m.head.headers = .ok ⟨.empty, some 0, false⟩)
+   | .chunked cs zero =>
+     framingOf m.head.headers = .ok ⟨.chunked, none, false⟩ ∧
+     (∀ c ∈ cs, Spec.wfChunk c = true) ∧
+     (usizeFromHex zero = some 0 ∧ zero.all (fun b => b != 13 && b != 59 && b < 128) = true ∧
+       trim zero = zero)
+   | .absent => framingOf m.head.headers = .ok ⟨.empty, none, false⟩) ∧
+  isLastRequest m.head.version m.head.headers = false ∧
+  (⟨Extracted.maxVersion.1, Extracted.maxVersion.2⟩ : Version).lt m.head.version = false
+
+/-- `wellBodied` on a `plain` body is implied by `plainBodied`. -/
+theorem plainBodied_wellBodied (m : Msg) (h : plainBodied m) : wellBodied ⟨m.head, m.ows, .plain m.body⟩ := by
+  obtain ⟨h1, h2, h3, h4, h5⟩ := h
+  refine ⟨h1, h2, ?_, h4, h5⟩
+  rcases h3 with h3 | h3
+  · exact Or.inl h3
+  · exact Or.inr (Or.inl h3)
+
+/-- one iteration of the connection loop on a `wellBodied` message, whatever follows it. -/
+theorem wellBodied_step (m : CMsg) (hm : wellBodied m)
+    (fuel idx : Nat) (s : St) (rest : Bytes) (fin : EndState) (script : Script) :
+    ∃ (s' : St) (d : Delivered),
+      runLoop (fuel + 1) idx s (Spec.renderHead m.head m.ows ++ (m.body.wire ++ rest)) fin script =
+        runLoop fuel (idx + 1) s' rest fin script ∧
+      s'.delivered = s.delivered ++ [d] ∧
+      (d.method, d.url, d.version, d.headers, d.bodyLength) =
+        (m.head.method, m.head.url, m.head.version, m.head.headers, m.body.declared) ∧
+      d.bodyRead <+: m.body.payload := by
+  obtain ⟨head, ows, body⟩ := m
+  obtain ⟨hwf, hows, hbody, hlast, hver⟩ := hm
+  cases body with
+  | plain B =>
+    rcases hbody with hfr | hfr | ⟨hB, hfr⟩
+    · exact runLoop_bodied_step fuel idx s head ows B rest fin script hwf hows (Or.inl hfr) hlast hver
+    · exact runLoop_bodied_step fuel idx s head ows B rest fin script hwf hows (Or.inr hfr) hlast hver
+    · subst hB
+      obtain ⟨s', d, h1, h2, h3, h4⟩ :=
+        runLoop_empty_step fuel idx s head ows (some 0) rest fin script hwf hows hfr hlast hver
+      exact ⟨s', d, h1, h2, h3, by rw [h4]; exact List.nil_prefix⟩
+  | chunked cs zero =>
+    obtain ⟨hfr, hcs, hz⟩ := hbody
+    exact runLoop_chunked_step fuel idx s head ows cs zero rest fin script hwf hows hfr hcs hz hlast hver
+  | absent =>
+    obtain ⟨s', d, h1, h2, h3, h4⟩ :=
+      runLoop_empty_step fuel idx s head ows none rest fin script hwf hows hbody hlast hver
+    exact ⟨s', d, h1, h2, h3, by rw [h4]; exact List.nil_prefix⟩
+
+/-- Message boundaries, end to end, for bodies of either form: a pipeline of any number of
+    requests, each with a Content-Length body of any size, a chunked body of any chunking, or no
+    body, answered by ANY application script — each handler reading all of its body, part of it or
+    none of it, with any buffer size (an empty-buffer read included), then answering, dropping,
+    taking the raw writer or failing in any way — is delivered request by request with exactly the
+    heads that were sent (`bodyLength` = the Content-Length, `none` for a chunked or absent body);
+    what each handler obtained is a prefix of that request's own content — for a chunked body, of
+    the concatenated chunk data: never a size line, an extension, a CRLF, or a byte of a later
+    message — and the server closes after the client's orderly close. -/
+theorem pipeline_with_any_bodies (msgs : List CMsg) (script : Script)
+    (hgood : ∀ m ∈ msgs, wellBodied m) :
+    let t := Conn.run ((msgs.map cmsgBytes).flatten) .eof script
+    t.delivered.map (fun d => (d.method, d.url, d.version, d.headers, d.bodyLength)) =
+        msgs.map (fun m => (m.head.method, m.head.url, m.head.version, m.head.headers, m.body.declared)) ∧
+      (∀ (i : Nat) (d : Delivered) (m : CMsg), t.delivered[i]? = some d → msgs[i]? = some m →
+        d.bodyRead <+: m.body.payload) ∧
+      t.ending = .closed := by
+  intro t
+  have hlen := generic_pipeline_length_ge CMsg.head CMsg.ows (fun m => m.body.wire) msgs
+  obtain ⟨s', ds, hrun, hdel, hmap, hpre⟩ :=
+    runLoop_generic_pipeline CMsg.head CMsg.ows (fun m => m.body.wire) (fun m => m.body.payload)
+      (fun m => m.body.declared) msgs (fun m hm => wellBodied_step m (hgood m hm))
+      (((msgs.map cmsgBytes).flatten).length + 1) 0 {} [] .eof script
+      (by exact Nat.le_succ_of_le hlen)
+  obtain ⟨k, hk⟩ : ∃ k, ((msgs.map cmsgBytes).flatten).length + 1 - msgs.length = k + 1 :=
+    ⟨((msgs.map cmsgBytes).flatten).length - msgs.length, by
+      have : msgs.length ≤ ((msgs.map cmsgBytes).flatten).length := hlen
+      omega⟩
+  have hdel' : s'.delivered = ds := by rw [hdel]; exact List.nil_append _
+  have ht : t = s'.finish .closed := by
+    have := hrun
+    rw [List.append_nil, hk] at this
+    exact this
+  rw [ht]
+  refine ⟨?_, ?_, rfl⟩
+  · rw [St.finish_delivered, hdel', hmap]
+  · intro i d m h1 h2
+    rw [St.finish_delivered, hdel'] at h1
+    exact hpre i d m h1 h2
+
+/-! non-vacuity: a concrete pipeline — a POST whose chunked body (two chunks, the second with an
+    extension and an upper-case size with a leading zero) is left unread by a handler that drops
+    the request, followed by a bare GET -/
+
+def exChunked : CMsg :=
+  ⟨⟨⟨b!"POST"⟩, b!"/up", ⟨1, 1⟩, [⟨b!"Transfer-Encoding", b!"chunked"⟩]⟩, [(b!" ", [])],
+    .chunked [⟨b!"5", [], b!"hello"⟩, ⟨b!"0A", b!";x=y", b!"0123456789"⟩] b!"0"⟩
+
+def exGet : CMsg := ⟨⟨⟨b!"GET"⟩, b!"/next", ⟨1, 1⟩, []⟩, [], .absent⟩
+
+/-- the hypotheses of `pipeline_with_any_bodies` hold of it -/
+theorem ex_wellBodied : ∀ m ∈ [exChunked, exGet], wellBodied m := by
+  intro m hm
+  simp only [List.mem_cons, List.not_mem_nil, or_false] at hm
+  rcases hm with rfl | rfl
+  · refine ⟨by decide, by decide, ?_, by decide, by decide⟩
+    show framingOf exChunked.head.headers = .ok ⟨.chunked, none, false⟩ ∧
+      (∀ c ∈ [(⟨b!"5", [], b!"hello"⟩ : Spec.SentChunk), ⟨b!"0A", b!";x=y", b!"0123456789"⟩],
+        Spec.wfChunk c = true) ∧
+      (usizeFromHex b!"0" = some 0 ∧ (b!"0").all (fun b => b != 13 && b != 59 && b < 128) = true ∧
+        trim b!"0" = b!"0")
+    decide
+  · refine ⟨by decide, by decide, ?_, by decide, by decide⟩
+    show framingOf exGet.head.headers = .ok ⟨.empty, none, false⟩
+    decide
+
+/-- so the theorem applies to it, with every script -/
+example (script : Script) :
+    let t := Conn.run (([exChunked, exGet].map cmsgBytes).flatten) .eof script
+    t.delivered.map (fun d => (d.method, d.url, d.version, d.headers, d.bodyLength)) =
+      [(⟨b!"POST"⟩, b!"/up", ⟨1, 1⟩, [⟨b!"Transfer-Encoding", b!"chunked"⟩], none),
+       (⟨b!"GET"⟩, b!"/next", ⟨1, 1⟩, [], none)] ∧ t.ending = .closed :=
+  ⟨(pipeline_with_any_bodies [exChunked, exGet] script ex_wellBodied).1,
+   (pipeline_with_any_bodies [exChunked, exGet] script ex_wellBodied).2.2⟩
+
+/-- the bytes on the wire -/
+example : ([exChunked, exGet].map cmsgBytes).flatten =
+    b!"POST /up HTTP/1.1\r\nTransfer-Encoding: chunked\r\n\r\n5\r\nhello\r\n0A;x=y\r\n0123456789\r\n0\r\n\r\nGET /next HTTP/1.1\r\n\r\n" := by
+  decide
+
+/-- the model run on it with a script that never looks at a body and drops every request -/
+def exDropped : Trace :=
+  Conn.run (([exChunked, exGet].map cmsgBytes).flatten) .eof (fun _ => ⟨0, 0, 1, .drop, false⟩)
+
+/-- both heads delivered, nothing read, connection closed (as the theorem says) -/
+example :
+    exDropped.delivered.map (fun d => (d.method, d.url, d.version)) =
+        [(⟨b!"POST"⟩, b!"/up", ⟨1, 1⟩), (⟨b!"GET"⟩, b!"/next", ⟨1, 1⟩)] ∧
+      exDropped.delivered.map (fun d => (d.headers, d.bodyLength, d.bodyRead)) =
+        [([⟨b!"Transfer-Encoding", b!"chunked"⟩], none, []), ([], none, [])] ∧
+      exDropped.statuses = [500, 500] ∧ exDropped.ending = .closed := by
+  decide
+
+/-- with handlers that read 8 bytes with a 3-byte buffer and then drop the request -/
+def exPartlyRead : Trace :=
+  Conn.run (([exChunked, exGet].map cmsgBytes).flatten) .eof (fun _ => ⟨1, 8, 3, .drop, false⟩)
+
+/-- the first handler obtains bytes of both chunks and nothing else -/
+example :
+    exPartlyRead.delivered.map (fun d => (d.url, d.bodyLength, d.bodyRead)) =
+        [(b!"/up", none, b!"hello012"), (b!"/next", none, [])] ∧ exPartlyRead.ending = .closed := by
+  decide
 
 end TH.Props.C09
